@@ -149,6 +149,18 @@ let () =
     let r = mx_resolve_arguments env (mx_command st) (mx_arguments st) in
     let o = mx_observe_exec env (mx_command st) (mx_arguments st) (z_of_int (mx_plug_exit st)) (mx_unhex st.plug_out) in
     emit (mx_exec_line st o (mx_plugin_argv r = MxArgvUnknown)));
+  register_op "mx_replay" (fun a ->
+    let st = !mx_st in
+    let env = mx_env st (num a "svc" 0 <> 0) in
+    (match mx_remote false env [] (mx_command st) (mx_arguments st) with
+     | None -> emit "rcoll err"
+     | Some r ->
+       emit "rcoll ok";
+       emit ("r" ^ mx_res_line r);
+       if num a "run" 0 <> 0 then
+         emit (Printf.sprintf "rexec argv=%s exit=%d"
+                 (match mx_plugin_argv r with MxArgv l -> mx_hexlist l | MxArgvUnknown -> "?" | MxArgvNone -> "none")
+                 (match r with MxCmdThrow _ -> 3 | _ -> mx_plug_exit st))));
   register_op "mx_esc" (fun a -> emit ("esc " ^ mx_hex (mx_escape_shell_arg (mx_unhex (str a "v" "-")))));
   register_op "mx_exit" (fun a -> emit ("exit " ^ zs (mx_exit_to_state (z_of_int (num a "st" 0)))));
   register_op "mx_out" (fun a ->
@@ -164,6 +176,7 @@ let mx_code_name c =
   | 11 -> "plugin-started-after-failed-resolution" | 12 -> "shell-string-outside-model" | 13 -> "argv-through-sh" | 14 -> "argv-execvp"
   | 15 -> "failure-not-unknown" | 16 -> "exit-status" | 17 -> "exit-map" | 18 -> "output-text" | 19 -> "perfdata"
   | 50 -> "timeout-not-unknown" | 51 -> "timeout-marker" | 52 -> "timeout-scenario" | 53 -> "grandchild-survived"
+  | 60 -> "replay-parent-outcome" | 61 -> "replay-differs-from-local" | 62 -> "replay-argv" | 63 -> "replay-exit"
   | 20 -> "escape" | 21 -> "escape-not-one-word" | 30 -> "exit-map" | 40 -> "output-text" | 41 -> "output-perf" | 42 -> "perfdata"
   | n -> "code-" ^ string_of_int n
 
@@ -180,6 +193,44 @@ let oracle_c09_case script trace =
     match parse_line line with
     | Some (op, a) when List.mem op [ "mx_new"; "mx_var"; "mx_attr"; "mx_env"; "mx_cmd"; "mx_cel"; "mx_args"; "mx_arg"; "mx_plug" ] ->
       mx_apply !mx_st op a
+    | Some ("mx_replay", a) ->
+      let st = !mx_st in
+      let env = mx_env st (num a "svc" 0 <> 0) in
+      let cmd = mx_command st and args = mx_arguments st in
+      let bad l = fail (Printf.sprintf "step=%d crash %s" li l) in
+      let code c = fail (Printf.sprintf "step=%d mx_replay %s" li (mx_code_name c)) in
+      (match next () with
+       | None -> fail (Printf.sprintf "step=%d missing-observation" li)
+       | Some l when is_bad_line l -> bad l
+       | Some l when toks_of l <> [ "rcoll"; "ok" ] ->
+         (match mx_oracle_replay env [] cmd args None with None -> () | Some c -> code c)
+       | Some _ ->
+         (match next () with
+          | None -> fail (Printf.sprintf "step=%d missing-observation" li)
+          | Some l when is_bad_line l -> bad l
+          | Some l ->
+            (match toks_of l with
+             | "rres" :: kind :: rest ->
+               let obs = (match kind with
+                          | "arr" -> MxCmdArr (List.map mx_unhex rest)
+                          | "sh" -> MxCmdStr (mx_unhex (match rest with h :: _ -> h | [] -> "-"))
+                          | _ -> MxCmdThrow MxErrFuel) in
+               (match mx_oracle_replay env [] cmd args (Some obs) with None -> () | Some c -> code c)
+             | _ -> code (z_of_int 98)));
+         if num a "run" 0 <> 0 then
+           (match next () with
+            | None -> fail (Printf.sprintf "step=%d missing-observation" li)
+            | Some l when is_bad_line l -> bad l
+            | Some l ->
+              let t = toks_of l in
+              if List.exists (fun x -> String.length x >= 4 && String.sub x 0 4 = "HANG") t || List.mem "exception" t then code (z_of_int 99) else
+              (match mx_remote false env [] cmd args with
+               | None -> code (z_of_int 60)
+               | Some r ->
+                 let argv = (match tok_val t "argv" with Some "none" | None -> None | Some s -> Some (mx_unhexlist s)) in
+                 let ex = (match tok_val t "exit" with Some v -> int_of_string v | None -> -1) in
+                 if not (mx_argv_beq (mx_plugin_argv r) argv) then code (z_of_int 62)
+                 else if ex <> (match r with MxCmdThrow _ -> 3 | _ -> mx_plug_exit st) then code (z_of_int 63))))
     | Some (op, a) when List.mem op [ "mx_resolve"; "mx_exec"; "mx_esc"; "mx_exit"; "mx_out" ] ->
       let st = !mx_st in
       (match next () with
